@@ -265,4 +265,43 @@ spec:
     action: Pass
     from: [{namespaces: {matchExpressions: [{key: team, operator: Exists}]}}]
     ports: [{portRange: {start: 100, end: 90, protocol: TCP}}]
+`, `apiVersion: extensions/v1beta1
+kind: Ingress
+metadata: {name: old-ingress, namespace: ns1}
+spec:
+  backend: {serviceName: s1, servicePort: 80}
+  rules:
+  - host: h
+    http:
+      paths:
+      - path: /
+        backend: {serviceName: s1, servicePort: p1}
+`, `apiVersion: batch/v1beta1
+kind: CronJob
+metadata: {name: old-cronjob, namespace: ns1}
+spec:
+  schedule: "* * * * *"
+  jobTemplate:
+    spec:
+      template:
+        metadata: {labels: {app: oldcj}}
+        spec:
+          containers: [{name: c, image: x, ports: [{containerPort: 81, name: http}]}]
+`, `apiVersion: extensions/v1beta1
+kind: NetworkPolicy
+metadata: {name: old-netpol, namespace: ns1}
+spec:
+  podSelector: {matchLabels: {app: b}}
+  ingress:
+  - from: [{podSelector: {}}]
+    ports: [{port: web}]
+`, `apiVersion: route.openshift.io/v1
+kind: Route
+metadata: {name: r-weights, namespace: ns1}
+spec:
+  host: example.com
+  to: {kind: Service, name: s1, weight: 0}
+  alternateBackends: [{kind: Service, name: nosuch, weight: 100}, {kind: ImageStream, name: s1}]
+  port: {targetPort: 80}
+  tls: {termination: edge}
 `}
